@@ -408,6 +408,12 @@ func (cx *Ctx) poolFor(name string) *Pool {
 		return cx.realFresh
 	case "race":
 		return cx.racePool()
+	case "simfresh-env1", "simfresh-env2":
+		// a fresh simulated worker process whose machine / environment (what runtime.NumCPU, os.Getenv, ... answer while
+		// packages are initialised, before any call runs) differs from the canonical one
+		p := *cx.simFresh
+		p.Env = append(append([]string{}, p.Env...), "VERIF_SIM_ENV="+map[string]string{"simfresh-env1": "1", "simfresh-env2": "7919"}[name])
+		return &p
 	}
 	return nil
 }
